@@ -44,6 +44,7 @@ RULE = (
 )
 RULE += " " + 'Added after the seeding rounds: SSC charts constructed by SSCChart.from_str (parsing stops at the note key, the rest is assigned by key); inequality with a twin holding the same keys in rotated order with the same sequence of values; unrelated keys that spell attribute / method names in upper case (EXTRADATA, ITEMS, KEYS, GET, ...).'
 RULE += " " + 'Round 6: the empty key and near-namesakes of known properties (LASTBEATHINT, BACKGROUND2, DISPLAYBPMS ...) among the unrelated keys.'
+RULE += " " + 'Round 7: for every SM chart state a twin filled notes-first into an empty chart must serialize in the documented field order and read back the same values.'
 ASSUMPTIONS = [
     "msdparser.parse_msd is the trusted tokenizer for reading serialized text back",
     "the attribute/key/alias tables in vf/simmodel.py are a faithful transcription of docs/source/known-properties.rst",
